@@ -13,7 +13,8 @@ DESIGN_REF = '5/C15'
 TECHNIQUE = ('explicit-state BFS over creation histories (sequences of wrapper / factory / statistics-task requests from a small alphabet) '
              'on the real Use / RunTaskFactory / stats helpers with the process-wide caches reset per history; every pair of requests '
              'of a history is judged (identity, distinctness, executed behaviour); exhaustive enumeration of small task lists for collect')
-RULE = ('Use alphabet (13 requests differing from a base request in exactly one aspect: same-named other function, differently named '
+RULE = ('[stacked: every pair / triple of injections (task A|B x key result|other x positional|keyword) stacked on one function, executed] ' +
+        'Use alphabet (13 requests differing from a base request in exactly one aspect: same-named other function, differently named '
         'function, two lambdas, injected task A/B, key result/other, positional/keyword, hard/soft, soft with task B, map with two same-named '
         'functions); factory alphabet (10 requests: extra args a/b, format kwargs, user name with args a/b, deps [A]/[B], soft deps, subprocess '
         'args, second factory with the same name); statistics tasks with equal names; every ordered pair of UseRun pipelines over 6 factories (generated / user-given name, different '
